@@ -1,5 +1,7 @@
 import Proofs.Tokens
 import Proofs.Pagination
+import Proofs.PagApi
+import Proofs.PagLater
 /-! C09 — page pagination: token text round-trips for every (prefix index, path); paths built from
     L/C/R steps are injective and read back digit by digit. The traversal is strictly ascending; resuming from any item returns exactly the later items
     (Proofs/Pagination). The lift over whole histories (`Shape` of every reachable state) is Proofs/PageSet. -/
@@ -61,5 +63,58 @@ theorem C09_no_repeat_no_skip {s : State} {a : Nat} {l c r : T} {lo hi : Option 
   resume_no_repeat_no_skip hr ho hw lru hmem fuel hf
 
 example : parseToken (buildToken 3 (([2, 1, 3] : List Nat).foldl base4Append 0)) = some (3, 39) := by decide
+
+section Episodes
+open Traph State Pag
+/-! ### the request itself: whole episodes, every reachable state (Proofs/PagGeneric, PagWalk, PagApi, PagLater) -/
+
+/-- THE PROPERTY at the API level: in every reachable state, for every prefix list, crawled-only switch and count ≥ 1, the chunks of an episode concatenate to the in-order page sequence, a rearrangement of the unpaginated answer; ascending within each prefix; every non-final chunk has exactly `count` pages and a token, the last says done; resumable at any item -/
+theorem C09_episode (cfg : Config) (dflt : Rule) (rules : List (Bytes × Rule)) (ops : List Op)
+    (hrules : ∀ ar ∈ rules, lruIter ar.1 ≠ [])
+    (hop : ∀ op ∈ ops, ∀ d rs, op ≠ .clear d rs) (hwf : ∀ op ∈ ops, OpWf op)
+    (hok : NoKeyErr (State.fresh cfg dflt rules []).1 ops)
+    (s : State) (hs : s = (State.fresh cfg dflt rules []).1.run ops)
+    (ps : List Bytes) (all : List (Bytes × Bool)) (hall : s.webentityPages ps = .ok all)
+    (crawledOnly : Bool) (count : Nat) (hc : 1 ≤ count) :
+    (∃ chunks : List PageChunk,
+      PageEpisode s ps crawledOnly count none chunks ∧
+      episodePages s ps crawledOnly count ((pageSeq s ps crawledOnly).length / count + 1) none = some chunks ∧
+      chunks.flatMap (·.pages) = ps.flatMap (pagesOfPrefix s crawledOnly) ∧
+      (ps.flatMap (pagesOfPrefix s crawledOnly)).Perm (if crawledOnly then all.filter (·.2) else all) ∧
+      (∀ ch ∈ chunks, ch.count = ch.pages.length ∧ ch.crawled = crawledCount ch.pages) ∧
+      (∀ ch ∈ chunks.dropLast, ch.done = false ∧ ch.pages.length = count ∧ ch.token.isSome = true) ∧
+      (∃ l, chunks.getLast? = some l ∧ l.done = true ∧ l.token = none ∧ l.pages.length ≤ count)) ∧
+    (∀ p ∈ ps, ((pagesOfPrefix s crawledOnly p).map (·.1)).Pairwise (fun a b => lexLt a b = true)) ∧
+    (∀ pre x post, gItems s (enumFrom 0 ps) = pre ++ x :: post → ∀ count', 1 ≤ count' →
+      ∃ chunks, PageEpisode s ps crawledOnly count' (some (buildToken x.1 x.2.2.2)) chunks ∧
+        chunks.flatMap (·.pages) = post.flatMap (fun y => pgOut s crawledOnly (y.2.1, y.2.2.1))) :=
+  Traph.C09_reachable cfg dflt rules ops hrules hop hwf hok s hs ps all hall crawledOnly count hc
+
+/-- issued tokens are tokens of items of the walk -/
+theorem C09_issued_tokens {s : State} {t : T} (h : Shape s t) (hi : Inv s t) {ps : List Bytes}
+    {all : List (Bytes × Bool)} (hall : s.webentityPages ps = .ok all) (crawledOnly : Bool)
+    (count : Nat) (hc : 1 ≤ count)
+    {chunks : List PageChunk} (hep : PageEpisode s ps crawledOnly count none chunks)
+    {ch : PageChunk} (hch : ch ∈ chunks) {tk : Bytes} (htk : ch.token = some tk) :
+    ∃ pre x post, gItems s (enumFrom 0 ps) = pre ++ x :: post ∧ (s.cell x.2.1).flags.page = true ∧
+      tk = buildToken x.1 x.2.2.2 :=
+  Traph.C09_issued_tokens h hi hall crawledOnly count hc hep hch htk
+
+/-- a token issued before, fed back after any `clear`-free history of writes (pages inserted between two calls), still resumes with exactly the current pages sorting after it -/
+theorem C09_resume_after_run {s : State} {t : T} (h : Shape s t) (hi : Inv s t) (hlive : Live s)
+    (ops : List Op) (hop : ∀ op ∈ ops, ∀ d rs, op ≠ .clear d rs) (hwf : ∀ op ∈ ops, OpWf op)
+    (hok : NoKeyErr s ops) {ps : List Bytes} {all : List (Bytes × Bool)}
+    (hall : s.webentityPages ps = .ok all) (crawledOnly : Bool) (count : Nat) (hc : 1 ≤ count)
+    (pre : List GX) (x : GX) (post : List GX) (hG : gItems s (enumFrom 0 ps) = pre ++ x :: post) :
+    ∃ p tl chunks, ps.drop x.1 = p :: tl ∧
+      PageEpisode (s.run ops) ps crawledOnly count (some (buildToken x.1 x.2.2.2)) chunks ∧
+      chunks.flatMap (·.pages)
+        = ((walkOf (s.run ops) p).filter (fun y => lexLt x.2.2.1 y.2.1)).flatMap
+            (fun it => pgOut (s.run ops) crawledOnly (it.1, it.2.1))
+          ++ tl.flatMap (pagesOfPrefix (s.run ops) crawledOnly) ∧
+      (∀ ch ∈ chunks.dropLast, ch.pages.length = count) :=
+  Traph.C09_resume_after_run h hi hlive ops hop hwf hok hall crawledOnly count hc pre x post hG
+
+end Episodes
 
 end Traph.Props
